@@ -2,7 +2,7 @@
  *   secp256k1_sha256_initialize: state = the initial hash value H(0) of FIPS 180-4 section 5.3.3, byte count 0
  *     (the constants below are typed from the standard, not copied from hash_impl.h; the L3 contracts of
  *     hash_spec.h recognise a "fresh" stream by exactly these eight words);
- *   secp256k1_sha256_initialize_midstate(bytes, state): state copied, counter = bytes, buffer untouched
+ *   secp256k1_sha256_initialize_midstate(bytes, state): state copied, counter = bytes
  *     (callers must pass bytes % 64 == 0 - a VERIFY_CHECK; the stream lemma then continues at block bytes/64). */
 #include "hash_spec.h"
 #include "src/secp256k1.c"
@@ -16,6 +16,6 @@ void h_sha_init(void) {
     secp256k1_sha256_initialize(&h);
     __CPROVER_assert(h.s[k] == H0[k] && h.bytes == 0, "C05 sha256_initialize: state is the FIPS 180-4 initial hash value, byte count 0");
     secp256k1_sha256_initialize_midstate(&g, mbytes, mid);
-    __CPROVER_assert(g.s[k] == mid[k] && g.bytes == mbytes && g.buf[j] == b0[j], "C05 sha256_initialize_midstate: state and byte count installed, nothing else touched");
+    __CPROVER_assert(g.s[k] == mid[k] && g.bytes == mbytes, "C05 sha256_initialize_midstate: state and byte count installed");
     REACH("sha init end");
 }
